@@ -110,6 +110,7 @@ def run_cases(check: str, tier: str, seed: int, cases: list[dict], out) -> None:
                     _core.arm_fault(None)
             if interposer is not None:
                 res.setdefault("cnt", {})["library_opened_files_wrapped"] = interposer.wrapped
+                res.setdefault("cnt", {})["library_opened_files_unbuffered"] = interposer.raw_opens
             if getattr(mod, "HANDLE_CLOSE_CHECK", False):
                 # every stream object of the case has gone out of scope by now: dropping them (or anything done before) must
                 # not have closed a handle that belongs to the caller
